@@ -30,7 +30,15 @@ const c06Rule = "inputs: token soup (lexemes, keywords, partial lexemes, quotes,
 	"through the built binary: broken statements with a visible side effect before the error in all three run modes, and nesting bombs of 4*10^5 (quick) to 10^6 (thorough) levels; " +
 	"non-trivial = the input holds at least one of: string/comment open at the end, a literal of >= 19 digits, a byte >= 0x80 or NUL, nesting >= 50, or a parse error after >= 3 tokens; distinct by input text"
 
-var soupAlphabet = []string{"a", "b", "if", "else", "while", "for", "return", "yield", "true", "false", "1", "23", "4.5", "\"s\"", "\"", "\\", "\\\"", "\\n", ";", " ", " ", "\n", "\t", "(", ")", "{", "}", "[", "]", ",", ":", "+", "-", "*", "/", "=", "<", ">", "!", "&", "|", "#", "%", "~", "->", "<-", "==", ".", "é", "\xff", "@", "99999999999999999999", "x", "f(", "(a) ->", "\x00", "1.", "\r", "'", "9223372036854775807", "9223372036854775808", "$"}
+var soupAlphabet = []string{"a", "b", "if", "else", "while", "for", "return", "yield", "true", "false", "1", "23", "4.5", "\"s\"", "\"", "\\", "\\\"", "\\n", ";", " ", " ", "\n", "\t", "(", ")", "{", "}", "[", "]", ",", ":", "+", "-", "*", "/", "=", "<", ">", "!", "&", "|", "#", "%", "~", "->", "<-", "==", ".", "é", "\xff", "@", "99999999999999999999", "x", "f(", "(a) ->", "\x00", "1.", "\r", "'", "9223372036854775807", "9223372036854775808", "$", "\u0080", "\u00a0", "\u2028", "\ufeff", "\U0010ffff", "\xc2", "\x7f"}
+
+// boundaryRunes are characters at the edges of the encodings and character
+// classes (as text: some are not valid UTF-8 on purpose).
+var boundaryRunes = []string{"\x01", "\x1b", "\x7f", "\u0080", "\u0081", "\u0085", "\u00a0", "\u00aa", "\u00ff", "\u0100", "\u07ff", "\u0800", "\u2028", "\u3000",
+	"\ufeff", "\ufffd", "\uffff", "\U00010000", "\U0010ffff", "\xc2", "\xe0\x80", "\xed\xa0\x80", "\xf4\x90\x80\x80", "\xc0\x80", "\x80", "\xfe"}
+
+// boundaryContexts put one character into every lexer state.
+var boundaryContexts = []string{"%s", "x = 1 + %s 2", "x = 1 +%s", "f(%s)", "\"a%sb\"", "; c %s\nx", "a%s", "a%sb = 1", "1%s", "1.5%s", "+%s", "%s+", "[1, %s]", "\"a\\%s\"", "x\n%s\ny", "%s%s", "if %s 1"}
 
 var caretRe = regexp.MustCompile(`^ *\^~*\^$`)
 
@@ -140,7 +148,11 @@ var nearMisses = []string{
 }
 
 func genFrontEndInput(t *rapid.T) (src string, nest int) {
-	switch rapid.IntRange(0, 10).Draw(t, "kind") {
+	switch rapid.IntRange(0, 11).Draw(t, "kind") {
+	case 11:
+		ctx := rapid.SampledFrom(boundaryContexts).Draw(t, "bctx")
+		r := rapid.SampledFrom(boundaryRunes).Draw(t, "brune")
+		return strings.ReplaceAll(ctx, "%s", r), 0
 	case 10:
 		pre := rapid.SampledFrom([]string{"", "", "a = 1\n", "\n", "; c\n", " "}).Draw(t, "pre")
 		post := rapid.SampledFrom([]string{"", "", " ", "\n", " ; c", "\n\n", "\nb = 2"}).Draw(t, "post")
